@@ -191,6 +191,7 @@ func main() {
 	genH2Fp()
 	genProxy()
 	genJA4()
+	genLifecycle()
 	facts["issues"] = issues
 	keys := make([]string, 0, len(facts))
 	for k := range facts {
